@@ -102,6 +102,29 @@ func maxMatching(ok [][]bool, n int) int {
 	return cnt
 }
 
+// byDistinctKey merges the columns (key positions) that hold the same public key.
+func byDistinctKey(ok [][]bool, keys []*Key) ([][]bool, int) {
+	col := map[string]int{}
+	idx := make([]int, len(keys))
+	for j, k := range keys {
+		id := fmt.Sprintf("%d|%x", k.Ty, k.Ser)
+		if _, seen := col[id]; !seen {
+			col[id] = len(col)
+		}
+		idx[j] = col[id]
+	}
+	out := make([][]bool, len(ok))
+	for i := range ok {
+		out[i] = make([]bool, len(col))
+		for j := range ok[i] {
+			if ok[i][j] {
+				out[i][idx[j]] = true
+			}
+		}
+	}
+	return out, len(col)
+}
+
 // justify is oracle O1.
 func (d *Drv) justify(in Input, o Outcome, views []SetView) {
 	c := d.C
@@ -135,9 +158,14 @@ func (d *Drv) justify(in Input, o Outcome, views []SetView) {
 			}
 		}
 		if got := maxMatching(ok, n); got < m {
-			c.Fail("accepted-unverified", "accepted although the counted signatures do not verify under M distinct keys of the set", in,
+			c.Fail("accepted-unverified", "accepted although the counted signatures do not verify under M distinct key positions of the set", in,
 				map[string]int{"set": si, "distinct_verified": got, "m": m}, "rejected")
 			return
+		}
+		// the property's own wording: M DISTINCT KEYS (a key repeated in the script is one key)
+		if okd, nd := byDistinctKey(ok, v.Keys); maxMatching(okd, nd) < m {
+			c.Fail("accepted-invalid:duplicate-key-counted-twice", "accepted although fewer than M distinct keys of the script have a valid signature: a public key repeated in the verification script is counted once per position", in,
+				map[string]int{"set": si, "distinct_keys_with_valid_signature": maxMatching(okd, nd), "m": m, "keys_in_script": n, "distinct_keys_in_script": nd}, "rejected")
 		}
 		addr, okA := SpecAddress(v.Keys, m)
 		if !okA {
@@ -281,9 +309,14 @@ func Run(c *hx.Ctx) {
 	c.CoqModule("Corr.C16")
 	d := &Drv{C: c, AbsBudget: 3}
 	var rin Input
-	if c.ReplayInput(&rin) && rin.Raw != "" {
-		d.W = NewWorld(c, NewPool())
-		d.replay(rin)
+	if c.ReplayInput(&rin) {
+		// a failing input, or the description of a correspondence case (the check replays the
+		// first disagreeing cases through the oracle): transaction cases carry their bytes; the
+		// CAbs cases (one crypto-library call) have no transaction to validate
+		if rin.Raw != "" {
+			d.W = NewWorld(c, NewPool())
+			d.replay(rin)
+		}
 		return
 	}
 	pool := BuildPool(c, c.N(3, 6))
@@ -305,6 +338,7 @@ func Run(c *hx.Ctx) {
 	}
 	d.RunDup(dups)
 	d.OverSigned(1)
+	d.DupKeys()
 	d.Generate(bases)
 	c.Note(fmt.Sprintf("abstract-signature validation: %d crypto-library Verify calls compared with abs_verify", d.W.AbsN))
 }
